@@ -128,7 +128,14 @@ enum Workload {
     /// point of the client, with its own code path to the same transport)
     SequentialOwned,
     ConcurrentWarmOwned,
+    /// `ConcurrentWarm`, but the first of the three concurrent requests goes through a clone
+    /// configured with a much longer timeout (15 s): clients sharing one channel must not
+    /// inherit each other's patience
+    ConcurrentWarmMixed,
 }
+
+/// The timeout of the patient sibling in `ConcurrentWarmMixed` (request id 2).
+const LONG_TIMEOUT: Duration = Duration::from_secs(15);
 
 const UNREAD_STREAM_VARIANTS: [(usize, &[usize]); 9] = [
     (50_000, &[16_000]),
@@ -308,6 +315,23 @@ fn run_sim(sc: &Scenario) -> Outcome {
                         results.lock().unwrap().push(r);
                     }
                 },
+                Workload::ConcurrentWarmMixed => {
+                    let r = call_full(&client, 1, 16, 0, false).await;
+                    results.lock().unwrap().push(r);
+                    tokio::time::sleep(Duration::from_millis(400)).await;
+                    let mut tasks = Vec::new();
+                    for id in 2..=4u32 {
+                        let mut c = client.clone();
+                        if id == 2 && with_timeout {
+                            c.set_timeout(LONG_TIMEOUT);
+                        }
+                        tasks.push(tokio::spawn(async move { call_full(&c, id, 16, 0, false).await }));
+                    }
+                    for t in tasks {
+                        let r = t.await.map_err(|e| format!("request task died: {e}"))?;
+                        results.lock().unwrap().push(r);
+                    }
+                },
                 Workload::Large => {
                     let r = call(&client, 1, 1 << 20).await;
                     results.lock().unwrap().push(r);
@@ -428,7 +452,7 @@ fn all_scenarios(tier: Tier) -> (Vec<Scenario>, usize, usize) {
     let max_faults = tier.pick(1, 2);
     let scripts = scripts(max_faults);
     let mut scenarios = Vec::new();
-    let mut workloads = vec![Workload::Sequential, Workload::ConcurrentFresh, Workload::ConcurrentWarm, Workload::Large, Workload::SequentialOwned, Workload::ConcurrentWarmOwned];
+    let mut workloads = vec![Workload::Sequential, Workload::ConcurrentFresh, Workload::ConcurrentWarm, Workload::Large, Workload::SequentialOwned, Workload::ConcurrentWarmOwned, Workload::ConcurrentWarmMixed];
     for v in 0..LARGE_REPLY_VARIANTS.len() {
         workloads.push(Workload::LargeReplies(v as u8));
     }
@@ -440,6 +464,9 @@ fn all_scenarios(tier: Tier) -> (Vec<Scenario>, usize, usize) {
         let delays: &[u64] = if big { &[0] } else { &[0, 500, 3000] };
         for &delay_ms in delays {
             for with_timeout in [true, false] {
+                if workload == Workload::ConcurrentWarmMixed && !with_timeout {
+                    continue; // identical to ConcurrentWarm
+                }
                 for script in &scripts {
                     if big && script.iter().filter(|f| **f != Fault::None).count() > 1 {
                         continue;
@@ -538,7 +565,7 @@ fn judge(sc: &Scenario, out: &Outcome, st: &mut Stats) {
     let expected_calls = match sc.workload {
         Workload::Sequential | Workload::SequentialOwned => 3,
         Workload::ConcurrentFresh => 2,
-        Workload::ConcurrentWarm | Workload::ConcurrentWarmOwned => 4,
+        Workload::ConcurrentWarm | Workload::ConcurrentWarmOwned | Workload::ConcurrentWarmMixed => 4,
         Workload::Large => 1,
         Workload::LargeReplies(v) => 1 + LARGE_REPLY_VARIANTS[v as usize].len(),
         Workload::UnreadStream(v) => 2 + UNREAD_STREAM_VARIANTS[v as usize].1.len(),
@@ -569,12 +596,13 @@ fn judge(sc: &Scenario, out: &Outcome, st: &mut Stats) {
         if !c.padding_ok {
             st.violation_ranked(&format!("payload-altered/{shape}"), rank, || format!("request {} payload echo mismatch", c.id), case);
         }
-        if sc.with_timeout && c.elapsed_ms > TIMEOUT.as_millis() as u64 + 5 {
+        let bound = if sc.workload == Workload::ConcurrentWarmMixed && c.id == 2 { LONG_TIMEOUT } else { TIMEOUT };
+        if sc.with_timeout && c.elapsed_ms > bound.as_millis() as u64 + 5 {
             let kind = if c.outcome.starts_with("ok:") { "late-answer" } else { "late-error" };
             st.violation_ranked(
                 &format!("timeout-bound-exceeded/{kind}/{shape}"),
                 rank,
-                || format!("request {} (client timeout 2 s) returned {} after {} ms", c.id, c.outcome, c.elapsed_ms),
+                || format!("request {} (client timeout {} s) returned {} after {} ms", c.id, bound.as_secs(), c.outcome, c.elapsed_ms),
                 case,
             );
         }
@@ -723,6 +751,7 @@ fn replay(case: &J) -> i32 {
             Some("ConcurrentFresh") => Workload::ConcurrentFresh,
             Some("SequentialOwned") => Workload::SequentialOwned,
             Some("ConcurrentWarmOwned") => Workload::ConcurrentWarmOwned,
+            Some("ConcurrentWarmMixed") => Workload::ConcurrentWarmMixed,
             Some("ConcurrentWarm") => Workload::ConcurrentWarm,
             Some("Large") => Workload::Large,
             Some(w) if w.starts_with("UnreadStream(") => Workload::UnreadStream(w["UnreadStream(".len()..w.len() - 1].parse().unwrap_or(0)),
